@@ -119,3 +119,84 @@ func caseGCRoll(res *caseResult, idx int, dir string, seed int64, tier string) {
 	}
 	res.Sample = map[string]interface{}{"kind": "gcroll", "config": res.Config}
 }
+
+// caseBackReset: the append position is reset backwards (SetAppendedSeq, what a follower's ResetReplicaIndex and a
+// leader's ResetAppendIndex do) across an index page boundary, then messages are appended again: every message
+// appended after the reset must read back under its sequence with its own bytes - in this process and after reopen.
+func caseBackReset(res *caseResult, idx int, dir string, seed int64, tier string) {
+	const itemsPerPage = 1024 * 256
+	r := rand.New(rand.NewSource(seed*3307 + int64(idx)*29 + 5))
+	s := newState(res)
+	pagesAhead := 1 + idx%2 // how many index pages the queue is ahead of the reset target
+	over := 5 + r.Intn(200)
+	total := int64(pagesAhead)*itemsPerPage + int64(over)
+	back := int64(1 + r.Intn(150))
+	target := itemsPerPage - back // last slot region of index page 0
+	res.Config = fmt.Sprintf("appended=%d reset-to=%d", total, target)
+	qdir := filepath.Join(dir, "q")
+	q, err := queue.NewQueue(qdir, 0)
+	if err != nil {
+		s.violate("C05/open-fails", "NewQueue: %v", err)
+		return
+	}
+	old := []byte("old-message-of-the-first-life")
+	for i := int64(0); i < total; i++ {
+		if err := q.Put(old); err != nil {
+			s.violate("C05/put-fails", "prefill put %d: %v", i, err)
+			return
+		}
+	}
+	q.SetAppendedSeq(target)
+	s.count("backreset.resets_across_an_index_page_boundary", 1)
+	expect := map[int64][]byte{}
+	put := func(q queue.Queue) {
+		seq := q.AppendedSeq() + 1
+		msg := payload(800+idx, int(seq%1000000), 30+r.Intn(300))
+		if err := q.Put(msg); err != nil {
+			s.violate("C05/put-fails", "Put of sequence %d after the reset: %v", seq, err)
+			return
+		}
+		if got := q.AppendedSeq(); got != seq {
+			s.violate("C05/sequences-not-dense", "appended %d after the put of %d", got, seq)
+			return
+		}
+		expect[seq] = msg
+	}
+	check := func(q queue.Queue, phase string) {
+		for seq, want := range expect {
+			if seq <= q.AcknowledgedSeq() {
+				continue
+			}
+			got, err := q.Get(seq)
+			if err != nil {
+				s.violate("C05/acknowledged-append-missing/after-backward-reset-across-index-page", "%s: Get(%d) of a message appended after the reset to %d fails: %v (appended %d, acknowledged %d)",
+					phase, seq, target, err, q.AppendedSeq(), q.AcknowledgedSeq())
+				continue
+			}
+			if !bytes.Equal(got, want) {
+				s.violate("C05/bytes-differ/after-backward-reset-across-index-page", "%s: sequence %d reads %d bytes (head %x), appended %d bytes (head %x)",
+					phase, seq, len(got), head(got), len(want), head(want))
+			}
+			res.Evals++
+		}
+	}
+	n := 3 + r.Intn(int(back)+20) // may cross the boundary forwards again
+	for i := 0; i < n; i++ {
+		put(q)
+	}
+	check(q, "same process")
+	q.Close()
+	q2, err := queue.NewQueue(qdir, 0)
+	if err != nil {
+		s.violate("C05/reopen-fails", "%v", err)
+		return
+	}
+	check(q2, "after reopen")
+	for i := 0; i < 3; i++ {
+		put(q2)
+	}
+	check(q2, "after reopen and more appends")
+	q2.Close()
+	res.Nontrivial = append(res.Nontrivial, fmt.Sprintf("backreset%d", idx))
+	res.Sample = map[string]interface{}{"kind": "backreset", "config": res.Config}
+}
